@@ -1220,3 +1220,8 @@ def run_C18(ctx):
 def _dbg_td_real(ctx):
     td_real(ctx, 60)
     td_e3(ctx, 40)
+
+
+def _dbg_td_real_big(ctx):
+    td_real(ctx, 3000)
+    td_e3(ctx, 600)
